@@ -30,17 +30,24 @@ def pieces():
     for f in FREE:
         ret = 'RCP<const Basic>' if f == 'det_bareis' else ('unsigned' if f == 'pivot' else ('bool' if f == 'is_symmetric_dense' else 'void'))
         ps.append(Piece(DM, r'%s %s\(' % (ret, f), rules=TERN.get(f, []) + TOK))
+    BK = [R('std::vector<DenseMatrix>', 'dm_vector', n='*', why="std::vector<DenseMatrix> -> fixed-capacity stub"),
+          R('std::vector<RCPBasic>', 'vec_basic', n='*', why="std::vector<RCP<const Basic>> is vec_basic")]
+    ps.append(Piece(DM, r'void berkowitz\(const DenseMatrix &A, std::vector<DenseMatrix> &polys\)',
+                    rules=[R('RCP<const Basic>', 'RCPBasic', n='*'), R('DenseMatrix(2, 1, {one, mul(A.m_[0], minus_one)})', 'DenseMatrix(2, 1, mk_vec2(one, mul(A.m_[0], minus_one)))', n=1,
+                             why="braced-init-list argument -> explicit two-element vector")] + BK + [r for r in TOK if r.pat != 'RCP<const Basic>']))
+    ps.append(Piece(DM, r'RCP<const Basic> det_berkowitz\(const DenseMatrix &A\)', rules=[R('RCP<const Basic>', 'RCPBasic', n='*')] + BK + [r for r in TOK if r.pat != 'RCP<const Basic>']))
+    ps.append(Piece(DM, r'void char_poly\(const DenseMatrix &A, DenseMatrix &B\)', rules=BK + TOK))
     ps.append(Piece(DM, r'void pivoted_LU\(const DenseMatrix &A, DenseMatrix &LU, permutelist &pl\)', rules=TOK))
     ps.append(Piece(DM, r'void pivoted_LU\(const DenseMatrix &A, DenseMatrix &L, DenseMatrix &U,', rules=TOK))
     return {'dense.inc': ps}
 
-ALL = ['h_entrywise', 'h_rowcol_ops', 'h_submatrix_insert_delete', 'h_product', 'h_special', 'h_det', 'h_lu', 'h_pivoted_lu', 'h_ldl', 'h_ffldu',
+ALL = ['h_berkowitz', 'h_entrywise', 'h_rowcol_ops', 'h_submatrix_insert_delete', 'h_product', 'h_special', 'h_det', 'h_lu', 'h_pivoted_lu', 'h_ldl', 'h_ffldu',
        'h_solve_lu', 'h_solve_fflu', 'h_solve_plu', 'h_solve_ffge', 'h_solve_ffgj', 'h_solve_ffgj_nopivot', 'h_solve_ldl', 'h_solve_triangular',
        'h_inv_lu', 'h_inv_fflu', 'h_inv_plu', 'h_inv_gj', 'h_rref', 'h_elimination']
 
 def units(tier):
     ents = []
-    BIG = {'h_special': 14, 'h_inv_fflu': 0, 'h_ffldu': 0}       # routines with loops over row*col entries
+    BIG = {'h_special': 14, 'h_inv_fflu': 0, 'h_ffldu': 0, 'h_berkowitz': 0}       # routines with loops over row*col entries
     def add(h, p, n, m=None, timeout=900):
         d = {'FP': p, 'NN': n, 'CAP': 16}
         if m is not None:
@@ -48,7 +55,7 @@ def units(tier):
         mm = m if m is not None else n
         uw = max(n, mm) + 2
         if h in BIG:
-            uw = max(uw, n * mm + 2)
+            uw = max(uw, n * mm + 2, (n * (n + 1) + 2) if h == 'h_berkowitz' else 0)
         shape = "%dx%d" % (n, mm)
         us = ['%s.0:17' % f for f in ('any_matrix', 'any_vec', 'out_matrix', 'all_set', 'vb_fill', 'vb_shift_up', 'vb_shift_down')]
         ents.append(Entry(h, defines=d, route='B', timeout=timeout if tier == 'quick' else 4 * timeout, mem_gb=8, unwind=uw, unwindset=us,
@@ -72,7 +79,7 @@ def units(tier):
              trusted=["field prelude prelude/field.h: exact-number arithmetic of symengine implements a field; checked over GF(3) (GF(5) thorough)",
                       "contracts/C24/dense_prelude.h: vec_basic / permutelist / vec_uint stubs; DenseMatrix::mul_scalar/transpose forward to the extracted free functions "
                       "(the real members add an is_a<DenseMatrix> test and a down_cast); pow(x, 2) = x*x; conjugate/expand are the identity on exact real numbers"],
-             assumptions=["QR, cholesky (square roots), eigen_values, jacobian/diff (symbolic), berkowitz/det_berkowitz/char_poly (std::vector<DenseMatrix>), Gaussian-rational "
+             assumptions=["QR, cholesky (square roots), eigen_values, jacobian/diff (symbolic), Gaussian-rational "
                           "entries, everything beyond the stated sizes, rank (not implemented in the code) are not covered",
                           "executions that divide by the field's zero are excluded for the routines without pivoting (documented non-singular leading minors)"])
     return [u]
